@@ -15,6 +15,7 @@ mod stubs;
 mod vtransport;
 mod wire;
 mod mem;
+mod sys;
 
 use serde_json::{json, Value};
 use std::{collections::BTreeMap, io::Write};
@@ -137,6 +138,7 @@ fn main() {
         "wire" => wire::run(&a),
         "mem" => mem::run(&a),
         "chain" => chain::run(&a),
+        "sys" => sys::run(&a),
         f => {
             eprintln!("unknown family {f}");
             std::process::exit(2);
